@@ -505,7 +505,45 @@ def _table_expr(e, globals_):
         return _table_expr(e.value, globals_) and not isinstance(e.value, ast.Constant)
     if isinstance(e, ast.UnaryOp) and isinstance(e.op, ast.USub):
         return isinstance(e.operand, ast.Constant)
+    if isinstance(e, ast.Dict):
+        return all(k is not None and isinstance(k, ast.Constant) for k in e.keys) and all(_table_expr(v, globals_) for v in e.values)
     return False
+
+
+def _only_read(index, names, attr):
+    """Every use of the table `attr` (as self.<attr> / cls.<attr> / <Class>.<attr>, or as the bare module-level name) only reads
+    it: indexed, iterated, .items()/.values()/.keys()/.get(), tested for membership, measured.  A mutable table that is
+    aliased or updated in place must stay where it is -- substituting a fresh display for it would change the program."""
+    READ_METHODS = ("items", "keys", "values", "get", "index", "count", "copy")
+    READ_CALLS = ("len", "list", "tuple", "dict", "set", "frozenset", "sorted", "iter", "enumerate", "zip", "reversed", "any", "all", "sum", "min", "max")
+    for m_ in index.modules.values():
+        par = {}
+        for n in ast.walk(m_.tree):
+            for ch in ast.iter_child_nodes(n):
+                par[ch] = n
+        for n in ast.walk(m_.tree):
+            if names is None:
+                hit = isinstance(n, ast.Name) and n.id == attr and isinstance(n.ctx, ast.Load)
+            else:
+                hit = isinstance(n, ast.Attribute) and n.attr == attr and isinstance(n.value, ast.Name) and n.value.id in names and \
+                    isinstance(n.ctx, ast.Load)
+            if not hit:
+                continue
+            p = par.get(n)
+            if isinstance(p, ast.Subscript) and p.value is n and isinstance(p.ctx, ast.Load):
+                continue
+            if isinstance(p, ast.Attribute) and p.value is n and p.attr in READ_METHODS and isinstance(par.get(p), ast.Call) and par.get(p).func is p:
+                continue
+            if isinstance(p, (ast.For, ast.comprehension)) and p.iter is n:
+                continue
+            if isinstance(p, ast.Compare) and n in p.comparators and all(isinstance(o, (ast.In, ast.NotIn)) for o in p.ops):
+                continue
+            if isinstance(p, ast.Call) and n in p.args and isinstance(p.func, ast.Name) and p.func.id in READ_CALLS:
+                continue
+            if isinstance(p, ast.Starred):
+                continue
+            return False
+    return True
 
 
 def propagate_constants(index):
@@ -550,7 +588,8 @@ def propagate_constants(index):
             if isinstance(st, ast.Assign) and len(st.targets) == 1 and isinstance(st.targets[0], ast.Name):
                 nm = st.targets[0].id
                 if nm.startswith("_") and not nm.startswith("__") and name_stores.get(nm) == 1 and \
-                        isinstance(st.value, (ast.Tuple, ast.List, ast.Constant)) and _table_expr(st.value, globals_ if not star else globals_ | _names_in(st.value)):
+                        isinstance(st.value, (ast.Tuple, ast.List, ast.Constant, ast.Dict)) and _table_expr(st.value, globals_ if not star else globals_ | _names_in(st.value)) and \
+                        (isinstance(st.value, (ast.Tuple, ast.Constant)) or _only_read(index, None, nm)):
                     mod_consts[nm] = st.value
         if mod_consts:
             class RM(ast.NodeTransformer):
@@ -570,8 +609,9 @@ def propagate_constants(index):
             consts = {}
             for k, v in c.class_attrs.items():
                 if k.startswith("_") and not k.startswith("__") and unshadowed(c, k) and not stored_attrs.get(k) and \
-                        isinstance(v, (ast.Tuple, ast.List, ast.Constant)) and not (isinstance(v, ast.Constant) and isinstance(v.value, str)) and \
-                        _table_expr(v, globals_ if not star else globals_ | _names_in(v)):
+                        isinstance(v, (ast.Tuple, ast.List, ast.Constant, ast.Dict)) and not (isinstance(v, ast.Constant) and isinstance(v.value, str)) and \
+                        _table_expr(v, globals_ if not star else globals_ | _names_in(v)) and \
+                        (isinstance(v, (ast.Tuple, ast.Constant)) or _only_read(index, ("self", "cls", c.name), k)):
                     consts[k] = v
             if not consts:
                 continue
